@@ -18,6 +18,7 @@ import Cachelito.Props.C06
 import Cachelito.Props.C05
 import Cachelito.Props.C07
 import Cachelito.Props.C08
+import Cachelito.Props.C15
 import Cachelito.Props.T17m
 import Cachelito.Props.T18
 import Cachelito.Props.T19
@@ -192,6 +193,30 @@ theorem async_lfu_scan_min_hits (c : AsyncCache K V F) (tl : Tlru F) (q : List K
     (h : Async.find_min_frequency_key c q = some x) : MinHits c.cache x := by
   rw [T06.find_min_frequency_key_eq c tl 0 hp q hmax] at h
   exact C08.lfu_victim_min_hits (cfg := T06.cfgOf c) (by simpa [T06.cfgOf] using hp) hi h
+
+/-! ## C15 on the translated `get` (every lookup counts exactly once: a hit iff it returned a value) -/
+
+/-- **sync global** -/
+theorem global_get_counts_once (c : GlobalCache K V F) (now : Nat) (k : K) (hmax : ∀ p, p ∈ c.map → p.2.hits < u64Max) :
+    ((∃ v, (Global.get ⟨fun b => now - b, now⟩ c k).1 = some v) ∧
+        (Global.get ⟨fun b => now - b, now⟩ c k).2.stats.hits = c.stats.hits + 1 ∧
+        (Global.get ⟨fun b => now - b, now⟩ c k).2.stats.misses = c.stats.misses) ∨
+    ((Global.get ⟨fun b => now - b, now⟩ c k).1 = none ∧
+        (Global.get ⟨fun b => now - b, now⟩ c k).2.stats.hits = c.stats.hits ∧
+        (Global.get ⟨fun b => now - b, now⟩ c k).2.stats.misses = c.stats.misses + 1) := by
+  rw [T09.get_eq c now k hmax]
+  exact C15.get_counts_once (T08.cfgOf c) ⟨c.map, c.order, now, c.stats.hits, c.stats.misses⟩ k
+
+/-- **async** -/
+theorem async_get_counts_once (c : AsyncCache K V F) (now : Nat) (k : K) (hmax : ∀ p, p ∈ c.cache → p.2.hits < u64Max) :
+    ((∃ v, (Async.get ⟨fun _ => 0, now⟩ c k).1 = some v) ∧
+        (Async.get ⟨fun _ => 0, now⟩ c k).2.stats.hits = c.stats.hits + 1 ∧
+        (Async.get ⟨fun _ => 0, now⟩ c k).2.stats.misses = c.stats.misses) ∨
+    ((Async.get ⟨fun _ => 0, now⟩ c k).1 = none ∧
+        (Async.get ⟨fun _ => 0, now⟩ c k).2.stats.hits = c.stats.hits ∧
+        (Async.get ⟨fun _ => 0, now⟩ c k).2.stats.misses = c.stats.misses + 1) := by
+  rw [T10.get_eq c now k hmax]
+  exact C15.get_counts_once (T06.cfgOf c) ⟨c.cache, c.order, now, c.stats.hits, c.stats.misses⟩ k
 
 /-! ## C01 / C03 / C10 / C11 on the generated wrappers -/
 
